@@ -143,6 +143,9 @@ def leaves_desc(tree):
 
     out = []
     for lf in tree_lib.flatten(tree):
+        if lf is None:        # a None leaf (dm-tree keeps it as a leaf): equal to None only
+            out.append({"shape": [], "dtype": "none", "cls": "n", "data": [0], "exact4": False, "num4": [0]})
+            continue
         a = np.asarray(lf)
         isf = np.issubdtype(a.dtype, np.floating)
         q = a.astype(np.float64).reshape(-1) * 4
@@ -214,6 +217,13 @@ def eq_events(rng, evs, n):
             pairs.append((mname, [ma, leaves[1]], [mb, leaves[1]]))
         else:
             pairs.append((mname, NT(a=ma, b=leaves[1]), NT(a=mb, b=leaves[1])))
+        # None leaves (the repository's own mixed-tree fixture has one): the same number of Nones at DIFFERENT positions,
+        # the other leaves equal once the Nones are dropped - every leaf pair differs
+        if kind == 0:
+            pairs.append(("none_leaves_swapped", {"x": None, "y": (leaves[1], leaves[2])}, {"x": leaves[1], "y": (None, leaves[2])}))
+            pairs.append(("none_leaves_same_place", {"x": None, "y": (leaves[1], leaves[2])}, {"x": None, "y": (leaves[1], leaves[2])}))
+        elif kind == 2:
+            pairs.append(("none_leaves_swapped", [None, leaves[1], leaves[1]], [leaves[1], None, leaves[1]]))
         for why, x, y in pairs:
             for (p, q, sym) in ((x, y, False), (y, x, True)):
                 try:
